@@ -168,7 +168,7 @@ PROPS["C18"] = {
 PROPS["C13"] = {
     "level": "exploration",
     "rule": "byte order {container default, explicit LITTLE / BIG where sf_format_check accepts it: RIFX, AIFF-C sowt, little-endian CAF} x rapidcheck-generated: container {WAV, WAVEX, RF64, AIFF, CAF} x encoding x channels x 0..200 chunks (counts biased to 19-22, 30-33, 46-49 = the table growth steps) x ids {distinct 4-char, few ids with duplicates, 1-3 chars, mixed} x payload lengths {0..5, odd and 4k+-1, up to 2 KiB, occasional 20-48 KiB} x interleaved string/bext sets x 0..1000 frames x a late sf_set_chunk after audio x optional reserved id x reading part of the audio before the chunk queries; "
-            "the audio through sf_writef_short or, for sample-granular encodings, through sf_write_raw alone; model = ordered list of accepted chunks; after re-open: full iteration visits them exactly once in order (library chunks identified by a twin file without custom chunks), by-id iteration visits exactly the chunks with that id, size within +3 of the payload length, payload equal and zero padded, short-buffer fetches stay inside an exact-size ASan block, audio and strings equal the twin; ids the container's own reader has a branch for (AIFF APPL, WAV DISP / MEXT, CAF uuid / umid) with payloads around the 8 KiB skip threshold; non-trivial = >= 21 chunks or duplicate ids or an odd payload; distinct = hash of the case",
+            "the audio through sf_writef_short or, for sample-granular encodings, through sf_write_raw alone; model = ordered list of accepted chunks; after re-open: full iteration visits them exactly once in order (library chunks identified by a twin file without custom chunks), by-id iteration visits exactly the chunks with that id, size within +3 of the payload length, payload equal and zero padded, short-buffer fetches stay inside an exact-size ASan block, audio and strings equal the twin; ids the container's own reader has a branch for (AIFF APPL, WAV DISP / MEXT, CAF uuid / umid) with payloads around the 8 KiB skip threshold; a full iteration is counted before and after an iteration by id that is started and dropped; non-trivial = >= 21 chunks or duplicate ids or an odd payload; distinct = hash of the case",
     "assumptions": BASE_ASSUME + ["chunk sources and destinations are exact-size heap blocks; the invariant hook runs after every sf_set_chunk",
                                   "three listed findings partition off their own classes by signature (ids shorter than 4 chars, reserved ids, totals above ~48 KiB); everything else is asserted"],
     "stages": [
